@@ -23,11 +23,12 @@ RULE = (
     "JSON with absolute targets + MachineLogic, (b) build_machine(State/Transition objects), (c) MachineBuilder, (d) a "
     "StateMachine subclass created with type(); oracle: equal deep fingerprints (resolved targets!) and equal sync traces "
     "with the JSON-built machine; two builds from one definition are independent (run one, the other still equals a "
-    "fresh build). State names are unique in the main campaign; a probe campaign repeats a name in two branches. "
+    "fresh build); transitions are passed one by one or combined with `|` in left, right and mixed association (candidate "
+    "order must stay the declared one). State names are unique in the main campaign; a probe campaign repeats a name in two branches. "
     "Campaign discovery: configs whose action/guard/service names are letter-only camelCase or snake_case are bound from "
     "a generated types.ModuleType / provider instance / MachineLogic subclass written in the other casing; every "
     "referenced name must be bound (the bound callable runs) or create_machine must raise ImplementationMissingError at "
-    "creation; names inside choose branches and invoke handlers count; a user implementation named like a built-in "
+    "creation; names inside choose branches, invoke handlers and composite guards nested up to two deep count; a user implementation named like a built-in "
     "(log, assign) or `stateIn` must run instead of the built-in. Non-trivial (frontends) = >=2 levels of nesting or a "
     "transition whose source and target live in different branches; (discovery) = a name found only via the other casing "
     "or a built-in shadow."
